@@ -2258,7 +2258,7 @@ class Series(ContainerOperand):
             {compare_class}
             {skipna}
         '''
-        if id(other) == id(self):
+        if skipna and id(other) == id(self):
             return True
 
         # NOTE: there are presently no Series subclasses, but better to be consistent
